@@ -1,6 +1,7 @@
 package rules
 
 import (
+	"fmt"
 	"go/token"
 	"go/types"
 	"strings"
@@ -17,13 +18,14 @@ func init() { Registry["C20"] = checkC20 }
 // segmented deques (node boundaries, growth, shrink, restructure) is NOT
 // decided - it needs an inductive invariant, i.e. a proof or an exploration.
 func checkC20(p *core.Prog, r *core.Report) {
-	r.Explanation = "Decides six structural necessary conditions of queue refinement and nothing else: (R1) the per-key wait queue and holder queue serve their inline slice before their overflow structure (ring / scale queue), so a new element may be appended to the inline slice only on a path where the overflow structure is absent or was tested empty - otherwise a newer element is served before older ones; (R2) Pop and PopRight of the three segmented deques (LockQueue, LockCommandQueue, LockManagerQueue) clear the slot they vacate, because Restructuring re-pushes every non-nil slot (a stale slot resurrects a removed element); (R3) Push of the three deques stores at the tail cursor before advancing it and allocates the next node when the cursor reaches the node size; (R4) every read of an element in Pop / PopRight / Head / Tail of the three deques is on the non-empty side of an emptiness test; (R5) in the slice-and-cursor queues (ring queue, inline part of the wait and holder queues) every path that re-bases the slice also resets the cursor; (R6) the wait queue's overflow field and its mode sentinel (fastIndex < 0 = priority ring) change together. (R7) the holder queue's IterNodes puts exactly one entry for the inline part in front of the overflow nodes (the index convention of IterNodeQueues). NOT decided (the bulk of the property): the (node, index) cursor arithmetic across node boundaries, Len, growth / shrink / Resize / Rellac / Restructuring / Reset, iteration, the priority ring's order, stability of the priority queue, holes left by in-place removal. A wrong index computation inside those operations is not seen."
+	r.Explanation = "Decides six structural necessary conditions of queue refinement and nothing else: (R1) the per-key wait queue and holder queue serve their inline slice before their overflow structure (ring / scale queue), so a new element may be appended to the inline slice only on a path where the overflow structure is absent or was tested empty - otherwise a newer element is served before older ones; (R2) Pop and PopRight of the three segmented deques (LockQueue, LockCommandQueue, LockManagerQueue) clear the slot they vacate, because Restructuring re-pushes every non-nil slot (a stale slot resurrects a removed element); (R3) Push of the three deques stores at the tail cursor before advancing it and allocates the next node when the cursor reaches the node size; (R4) every read of an element in Pop / PopRight / Head / Tail of the three deques is on the non-empty side of an emptiness test; (R5) in the slice-and-cursor queues (ring queue, inline part of the wait and holder queues) every path that re-bases the slice also resets the cursor; (R6) the wait queue's overflow field and its mode sentinel (fastIndex < 0 = priority ring) change together. (R7) the holder queue's IterNodes puts exactly one entry for the inline part in front of the overflow nodes (the index convention of IterNodeQueues). (R8) Pop / PopRight / Head / Tail of the three deques return the empty answer only on a path that compared both coordinates (node index and in-node index) of the head and tail cursors - one coordinate alone reports a queue that spans nodes as empty. NOT decided (the bulk of the property): the (node, index) cursor arithmetic across node boundaries, Len, growth / shrink / Resize / Rellac / Restructuring / Reset, iteration, the priority ring's order, stability of the priority queue, holes left by in-place removal. A wrong index computation inside those operations is not seen."
 	r.Assumptions = []string{"Go type checker and go/ssa are correct for /repo"}
 	c20R1(p, r)
 	c20R234(p, r)
 	c20R5(p, r)
 	c20R6(p, r)
 	c20R7(p, r)
+	c20R9(p, r)
 }
 
 func c20R1(p *core.Prog, r *core.Report) {
@@ -91,9 +93,10 @@ func c20R1(p *core.Prog, r *core.Report) {
 }
 
 func c20R234(p *core.Prog, r *core.Report) {
-	const r2, r3, r4 = "C20/R2", "C20/R3", "C20/R4"
+	const r2, r3, r4, r8 = "C20/R2", "C20/R3", "C20/R4", "C20/R8"
 	r.Rule(r2, "Pop / PopRight of the segmented deques store nil into the slot they vacate", 6)
 	r.Rule(r3, "Push of the segmented deques stores at the tail cursor before advancing it and calls mallocQueue when the cursor reaches the node size", 3)
+	r.Rule(r8, "Pop / PopRight / Head / Tail of the segmented deques declare the queue empty only after comparing both the node index and the in-node index of the head and tail cursors", 12)
 	r.Rule(r4, "element reads in Pop / PopRight / Head / Tail of the segmented deques are on the non-empty side of an emptiness test", 12)
 	for _, typ := range []string{"LockQueue", "LockCommandQueue", "LockManagerQueue"} {
 		// R2 + R4 for Pop / PopRight, R4 for Head / Tail
@@ -162,6 +165,34 @@ func c20R234(p *core.Prog, r *core.Report) {
 					}
 				},
 				Exit: func(x *core.X, rets []core.Expr) {
+					if len(rets) == 1 && rets[0].S == "nil" && x.Get("slot") == "" {
+						// R8: the empty verdict (nil returned, no element read) needs both
+						// coordinates of the two cursors compared, or a Len test
+						qi, ni, nonEmpty := false, false, false
+						for h := range x.St.Hist {
+							// the non-empty side of a cursor comparison was taken: a later nil
+							// return (Tail's defensive arm) is not an empty verdict of the test
+							if strings.Contains(h, "headQueueIndex < ") || strings.Contains(h, "headNodeIndex < ") {
+								nonEmpty = true
+							}
+							if strings.Contains(h, "tailQueueIndex") && strings.Contains(h, "headQueueIndex") {
+								qi = true
+							}
+							if strings.Contains(h, "tailNodeIndex") && strings.Contains(h, "headNodeIndex") {
+								ni = true
+							}
+							if strings.HasPrefix(h, "Len(") || strings.Contains(h, " Len(") {
+								qi, ni = true, true
+							}
+						}
+						key := name + ": empty verdict"
+						if nonEmpty {
+						} else if qi && ni {
+							r.Hold(r8, key, x.Pos(), "node index and in-node index of both cursors compared")
+						} else {
+							r.Violate(r8, key, x.Pos(), "the queue is declared empty (nil returned, nothing read) after comparing only one coordinate of the head and tail cursors: a non-empty queue whose contents span nodes is reported empty", x.St.Trace)
+						}
+					}
 					if m != "Pop" && m != "PopRight" {
 						return
 					}
@@ -558,4 +589,111 @@ func c20R7(p *core.Prog, r *core.Report) {
 	default:
 		r.Hold(rule, key, p.Pos(fn.Pos()), "slice or placeholder on every path")
 	}
+}
+
+// c20R9: nodeIndex is the index of the top allocated node (mallocQueue raises
+// it when it allocates, Reset and growth read nodeQueueSizes[nodeIndex] as the
+// size to double). A restructure pass that frees nodes therefore frees the node
+// AT nodeIndex and lowers nodeIndex in the same step; freeing by another index
+// (the old tail) leaves nodeIndex on a freed node whose recorded size is 0 -
+// the next growth allocates an empty node and the push after it panics
+// (reproduced: findings/c20_restructuring_stale_nodeindex_probe_test.go,
+// findings/c20_longwait_restructure_pool_reuse_probe_test.go; repaired).
+// Scope: the five restructure passes only - Shrink and Resize free by other
+// conventions (shrinkNodeSize, node moves) that this rule does not decide.
+func c20R9(p *core.Prog, r *core.Report) {
+	const rule = "C20/R9"
+	r.Rule(rule, "a restructure pass frees a node only at nodeIndex (the top allocated node) and lowers nodeIndex in the same block", 5)
+	for _, name := range []string{
+		"server.(*LockQueue).Restructuring", "server.(*LockCommandQueue).Restructuring", "server.(*LockManagerQueue).Restructuring",
+		"server.(*LockDB).restructuringLongTimeOutQueue", "server.(*LockDB).restructuringLongExpriedQueue",
+	} {
+		fn := mustFunc(p, r, name)
+		if fn == nil {
+			continue
+		}
+		n := 0
+		for _, b := range fn.Blocks {
+			for _, ins := range b.Instrs {
+				st, ok := ins.(*ssa.Store)
+				if !ok {
+					continue
+				}
+				ia, ok := st.Addr.(*ssa.IndexAddr)
+				if !ok {
+					continue
+				}
+				c, isConst := st.Val.(*ssa.Const)
+				if !isConst || !c.IsNil() {
+					continue
+				}
+				// a node slot: element of a slice of slices loaded from a field named queues
+				ld, ok := ia.X.(*ssa.UnOp)
+				if !ok {
+					continue
+				}
+				fa, ok := ld.X.(*ssa.FieldAddr)
+				if !ok || fieldName(fa) != "queues" {
+					continue
+				}
+				n++
+				key := fmt.Sprintf("%s: node freed#%d", name, n)
+				// index is a load of <same queue>.nodeIndex
+				atTop := false
+				if il, ok := ia.Index.(*ssa.UnOp); ok {
+					if ifa, ok := il.X.(*ssa.FieldAddr); ok && fieldName(ifa) == "nodeIndex" && sameBase(ifa.X, fa.X) {
+						atTop = true
+					}
+				}
+				lowered := false
+				for _, j := range b.Instrs {
+					if s2, ok := j.(*ssa.Store); ok {
+						if f2, ok := s2.Addr.(*ssa.FieldAddr); ok && fieldName(f2) == "nodeIndex" && sameBase(f2.X, fa.X) {
+							if bo, ok := s2.Val.(*ssa.BinOp); ok && bo.Op.String() == "-" {
+								lowered = true
+							}
+						}
+					}
+				}
+				if atTop && lowered {
+					r.Hold(rule, key, p.InstrPos(st), "freed at nodeIndex, nodeIndex lowered in the same block")
+				} else {
+					r.Violate(rule, key, p.InstrPos(st), "a restructure pass frees a node by an index other than nodeIndex, or without lowering nodeIndex: nodeIndex is left on a freed node (recorded size 0), the next growth allocates an empty node and the following push panics", nil)
+				}
+			}
+		}
+		if n == 0 {
+			r.Fail("C20/R9 %s: no node-freeing store found", name)
+		}
+	}
+}
+
+func fieldName(fa *ssa.FieldAddr) string {
+	t := fa.X.Type().Underlying()
+	if pt, ok := t.(*types.Pointer); ok {
+		if st, ok := pt.Elem().Underlying().(*types.Struct); ok {
+			return st.Field(fa.Field).Name()
+		}
+	}
+	return ""
+}
+
+// sameBase: two address bases denote the same queue object - identical SSA
+// values, or loads / field addresses of the same field chain (go/ssa has no
+// CSE, so every `longLocks.locks` is a new load).
+func sameBase(a, b ssa.Value) bool {
+	if a == b {
+		return true
+	}
+	switch x := a.(type) {
+	case *ssa.UnOp:
+		if y, ok := b.(*ssa.UnOp); ok && x.Op == y.Op {
+			return sameBase(x.X, y.X)
+		}
+	case *ssa.FieldAddr:
+		if y, ok := b.(*ssa.FieldAddr); ok && x.Field == y.Field {
+			return sameBase(x.X, y.X)
+		}
+	}
+	return false
 }
